@@ -31,6 +31,110 @@ def run_stream(rig, nsteps, faults, upd_pattern):
     return out
 
 
+class _Boom(Exception):
+    pass
+
+
+def batch_fault_scenario(kind, seed, d, n_inner, T, fail_at, original=False):
+    """BatchSage / IntervalSage.explain_one on a stream of T observations; the `fail_at`-th callback invocation (model call, loss call,
+    imputer call or storage update, counted over the whole stream) raises. Returns (records, total number of invocations); a record is
+    (call number, importance values before, importance values after, exception or None, kinds of invocations made in the call)."""
+    import copy
+    import random as pyrandom
+    import warnings
+    import numpy as np
+    from harness import rng as hrng
+    from ixai.explainer.sage import BatchSage, IntervalSage
+    from ixai.storage import BatchStorage, IntervalStorage
+    from ixai.imputer import MarginalImputer
+    r = pyrandom.Random(seed)
+    names = ["a", "b", "c"][:d]
+    coef = {f: Q(r.randint(-3, 3) or 1) for f in names}
+    state = {"n": 0, "kinds": []}
+
+    def tick(what):
+        state["n"] += 1
+        state["kinds"].append(what)
+        if state["n"] == fail_at:
+            raise _Boom(f"{what} failure at invocation {fail_at}")
+
+    def one(z):
+        return {"output": sum((coef[f] * z[f] for f in names), Q(1, 3)) + coef[names[0]] * z[names[0]] * z[names[-1]]}
+
+    def model(z):
+        tick("model")
+        return one(z) if isinstance(z, dict) else [one(zi) for zi in z]
+
+    def loss(y, p):
+        tick("loss")
+        return (p["output"] - y) * (p["output"] - y)
+
+    base_storage = BatchStorage if kind == "batch" else IntervalStorage
+
+    class Storage(base_storage):
+        def update(self, x, y=None):
+            tick("storage")
+            return super().update(x, y)
+
+    class Imputer(MarginalImputer):
+        def impute(self, feature_subset, x_i, n_samples=None):
+            tick("imputer")
+            return super().impute(feature_subset, x_i, n_samples)
+    records = []
+    with warnings.catch_warnings():
+        warnings.simplefilter("ignore")
+        dr = hrng.Scripted(pyrandom.Random(seed + 1), real_fn=lambda g: g.random())
+        with dr.installed():
+            st = Storage(store_targets=True) if kind == "batch" else Storage(store_targets=True, size=3)
+            imp = Imputer(model, "joint", st)
+            if kind == "batch":
+                ex = BatchSage(model_function=model, feature_names=list(names), loss_function=loss, n_inner_samples=n_inner, storage=st, imputer=imp)
+            else:
+                ex = IntervalSage(model_function=model, loss_function=loss, feature_names=list(names), n_inner_samples=n_inner,
+                                  interval_length=2, storage=st, imputer=imp)
+            for t in range(T):
+                x = {f: Q(r.randint(-4, 4), r.randint(1, 3)) for f in names}
+                y = Q(r.randint(-3, 3), 2)
+                before = copy.deepcopy(dict(ex.importance_values))
+                state["kinds"] = []
+                err = None
+                try:
+                    if kind == "batch":
+                        ex.explain_one(x, y, verbose=False, original_sage=original)
+                    else:
+                        ex.explain_one(x, y, verbose=False, force_explain=(t == 2))
+                except _Boom as exn:
+                    err = exn
+                except Exception as exn:
+                    err = exn
+                records.append((t + 1, before, copy.deepcopy(dict(ex.importance_values)), err, "".join(k[0].upper() for k in state["kinds"])))
+    return records, state["n"]
+
+
+def batch_faults_fail(chk, kind, seed, d, n_inner, T, original=False):
+    clean, total = batch_fault_scenario(kind, seed, d, n_inner, T, 0, original)
+    for rec in clean:
+        if rec[3] is not None:
+            return None, f"fault-free call {rec[0]} raised {core.err_kind(rec[3])}: {rec[3]}"
+    chk.stat(f"batch_fault_positions:{kind}", total)
+    for k in range(1, total + 1):
+        recs, _ = batch_fault_scenario(kind, seed, d, n_inner, T, k, original)
+        hit = [r for r in recs if r[3] is not None]
+        if not hit:
+            return k, f"the callback at invocation {k} raised but no explain_one call raised (the exception did not propagate)"
+        t, before, after, err, kinds = hit[0]
+        chk.stat("batch_fault_hit:" + kinds[-1:])
+        if not isinstance(err, _Boom):
+            return k, f"call {t} raised {core.err_kind(err)}: {err} instead of propagating the callback's exception"
+        if after != before or list(after.keys()) != list(before.keys()):
+            return k, (f"the {({'M': 'model', 'L': 'loss', 'I': 'imputer', 'S': 'storage'}).get(kinds[-1:], '?')} raised at invocation {k} (the {len(kinds)}-th "
+                       f"callback of call {t}) and the importance values changed from {before} to {after}")
+        later = [r for r in recs if r[0] > t and r[3] is not None]
+        if later:
+            return k, f"after the caught failure at invocation {k}, call {later[0][0]} raised {core.err_kind(later[0][3])}: {later[0][3]}"
+    return None, None
+
+
 def array_outputs_fail(rng, kind, dynamic, fail_at):
     """a model whose output values are NumPy arrays (e.g. {'output': reg.predict(X)} of shape (1,)): in-place arithmetic on arrays can
     alias a working copy with the live trackers; estimates are compared BY VALUE before/after the failing call and against a twin run
@@ -119,7 +223,7 @@ def array_outputs_fail(rng, kind, dynamic, fail_at):
 def run(tier="quick", seed=0, replay=None):
     chk = core.Check("C17", tier, seed, "fault_enumeration")
     chk.level = "proof"
-    chk.rule = ("IncrementalPFI / IncrementalSage, d in 1..3, n_inner in 1..2, static/dynamic, MarginalImputer(joint) over a geometric "
+    chk.rule = ("BatchSage (explain_many and original mode) / IntervalSage: EVERY callback position (model, loss, imputer, storage) of short streams on the real classes; IncrementalPFI / IncrementalSage, d in 1..3, n_inner in 1..2, static/dynamic, MarginalImputer(joint) over a geometric "
                 "reservoir, 4-call streams: EVERY callback invocation of every explained call fails once (single faults, exhaustive for "
                 "the configuration), plus random pairs of faults. A case is one (configuration, fault set); non-trivial when the "
                 "fault hits an explained call; distinct by hash.")
@@ -194,6 +298,23 @@ def run(tier="quick", seed=0, replay=None):
             if hit:
                 reqs.append(rig.eff_request(sorted(fs)))
                 impls.append((cfg, tuple(sorted(fs)), rig))
+    # BatchSage / IntervalSage: every callback position of a short stream (they keep their values in one attribute, assigned at the end)
+    for bi in range(chk.count(4, 24)):
+        bkind = ["batch", "interval"][bi % 2]
+        d, n_inner, T = chk.rng.randint(1, 3), chk.rng.randint(1, 2), (3 if bkind == "batch" else 5)
+        original = bkind == "batch" and bi % 4 == 2
+        sd = chk.rng.randrange(10 ** 9)
+        dsc = {"batch_faults": True, "kind": bkind, "d": d, "n_inner": n_inner, "calls": T, "seed": sd, "original_sage": original}
+        chk.case(dsc, nontrivial=True, sample=(bi < 2))
+        chk.stat(f"kind:{bkind}")
+        try:
+            k, f = batch_faults_fail(chk, bkind, sd, d, n_inner, T, original)
+        except Exception as ex:
+            k, f = None, None
+            chk.stat("batch_fault_harness_error:" + core.err_kind(ex))
+        if f:
+            chk.violation(f"not-atomic:{bkind}", f"{'BatchSage' if bkind == 'batch' else 'IntervalSage'}.explain_one (d={d}, n_inner={n_inner}, "
+                          f"{'original SAGE, ' if original else ''}seed {sd}): {f}", dict(dsc, fail_at=k))
     for kind in ("sage", "pfi"):
         for dynamic in (False, True):
             for fail_at in range(8, 60, 3 if quick else 1):
